@@ -52,14 +52,14 @@ def shards(tier, seed):
 def requirements(tier):
     return {"histories_exhaustive": 39 if tier == "quick" else 363, "calls_returned": 900, "reset_equals_fresh_checked": 200, "schedule_recompute_calls_checked": 500,
             "schedule_reuse_calls_checked": 250, "reuse_weights_direction_checked": 200, "max_norm_checked": 600, "solver_recorder_hits": 1,
-            "w_k_ge_2": 300, "w_reset_after_call": 60, "w_max_norm_binding": 100}
+            "w_k_ge_2": 300, "w_reset_after_call": 60, "w_max_norm_binding": 100, "rescaling_only_checked": 500}
 
 
 def make_matrices(rng, dname):
     m = int(rng.integers(2, 6))
     n = int(rng.integers(m, m + 5))
-    sc = float(10 ** rng.uniform(-1, 1.5))
-    return [M.well_conditioned(rng, m, n, cond=float(10 ** rng.uniform(0, 1)), scale=sc).tolist() for _ in range(2)], m
+    # independent scales: on a reuse call the old weights applied to a much smaller / larger matrix may or may not exceed max_norm
+    return [M.well_conditioned(rng, m, n, cond=float(10 ** rng.uniform(0, 1)), scale=float(10 ** rng.uniform(-2, 2))).tolist() for _ in range(2)], m
 
 
 def run_history(inst, hist, mats, ctx, case, record_solver=True):
@@ -95,7 +95,7 @@ def check_case(case, ctx):
     mats = {k: to_t(v, dname) for k, v in mats64.items()}
     m = mats64["M1"].shape[0]
     k, mn = case["k"], case["max_norm"]
-    desc = {"name": "NashMTL", "n_tasks": m, "every": k, "max_norm": mn}
+    desc = {"name": "NashMTL", "n_tasks": m, "every": k, "max_norm": mn, "optim_niter": case.get("optim_niter", 20)}
     hist = case["history"]
     inst = aggs.make(desc, DT[dname])
     res = run_history(inst, hist, mats, ctx, case)
@@ -118,6 +118,25 @@ def check_case(case, ctx):
                     break
                 if nrm > mn * (1 - 1e-4):
                     ctx.count("w_max_norm_binding")
+    # 4b. max_norm only rescales the returned vector: a twin instance with max_norm = 0 (no rescaling) fed the same history gives
+    #     the unrescaled combinations; every output must be that vector, shrunk to max_norm when longer.  (Sees reused weights
+    #     whose MAGNITUDE changed in between, which the direction test below cannot.)
+    if vio is None and mn > 0:
+        twin_inst = aggs.make({**desc, "max_norm": 0.0}, DT[dname])
+        res_t = run_history(twin_inst, hist, mats, ctx, case)
+        for i, (r, rt) in enumerate(zip(res, res_t)):
+            if r is None or rt is None or isinstance(r, Exception) or isinstance(rt, Exception):
+                continue
+            tn = float(np.linalg.norm(rt[0]))
+            exp = rt[0] if tn <= mn else rt[0] * (mn / tn)
+            d = float(np.linalg.norm(r[0] - exp))
+            sc = float(np.linalg.norm(exp)) + 1e-300
+            ctx.maximum(f"vs_unrescaled_twin_{dname}", d / sc)
+            ctx.count("rescaling_only_checked")
+            if d > {"float64": 1e-6, "float32": 1e-3}[dname] * sc:
+                vio = ("output_is_not_the_rescaled_unrescaled_combination", {"step": i, "symbol": hist[i], "output": r[0].tolist(), "expected": exp.tolist(),
+                                                                             "calls_since_reset": _since_reset(hist, i), "update_weights_every": k})
+                break
     # 3. schedule
     if vio is None:
         j = 0  # calls since construction / reset
@@ -215,7 +234,7 @@ def run_shard(shard, ctx):
                     def gen(r, i):
                         dname = "float32" if r.random() < 0.2 else "float64"
                         mats, m = make_matrices(r, dname)
-                        return {"history": H[hi], "k": k, "max_norm": mn, "matrices": mats, "dtype": dname}
+                        return {"history": H[hi], "k": k, "max_norm": mn, "matrices": mats, "dtype": dname, "optim_niter": [20, 20, 5, 50][int(r.integers(4))]}
                     run_cases(ctx, rng, 1, gen, check_case)
             ctx.count("histories_exhaustive")
     else:
@@ -224,7 +243,7 @@ def run_shard(shard, ctx):
             mats, m = make_matrices(r, dname)
             n = int(r.integers(4, 9))
             hist = [("M1", "M2", "reset")[int(x)] for x in r.choice(3, size=n, p=[0.42, 0.42, 0.16])]
-            return {"history": hist, "k": int(r.integers(1, 5)), "max_norm": NORMS[int(r.integers(4))], "matrices": mats, "dtype": dname}
+            return {"history": hist, "k": int(r.integers(1, 5)), "max_norm": NORMS[int(r.integers(4))], "matrices": mats, "dtype": dname, "optim_niter": [20, 20, 5, 50][int(r.integers(4))]}
         run_cases(ctx, rng, shard["n"], gen, check_case)
 
 
